@@ -97,6 +97,16 @@ impl Service<http::Request<Body>> for Capture {
 #[derive(Clone)]
 pub struct Handler { pub script: Arc<Value>, pub log: Rec }
 type BoxStream = Pin<Box<dyn tokio_stream::Stream<Item = Result<Vec<u8>, Status>> + Send>>;
+/// The handler's response stream: every item ready at once, and NOT fused - if it is polled again after it has ended it says so
+/// with an error item (a stream is allowed to do anything then), so that such a poll becomes visible to the caller.
+struct StrictStream { items: std::collections::VecDeque<Result<Vec<u8>, Status>>, ended: bool, complained: bool }
+impl tokio_stream::Stream for StrictStream {
+    type Item = Result<Vec<u8>, Status>;
+    fn poll_next(mut self: Pin<&mut Self>, _cx: &mut Context<'_>) -> Poll<Option<Self::Item>> {
+        if self.ended { if self.complained { return Poll::Ready(None); } self.complained = true; return Poll::Ready(Some(Err(Status::data_loss("handler stream polled after it had ended")))); }
+        match self.items.pop_front() { Some(x) => Poll::Ready(Some(x)), None => { self.ended = true; Poll::Ready(None) } }
+    }
+}
 fn script_status(end: &Value) -> Status {
     let (meta, _) = build_meta(&end["meta"]);
     Status::with_details_and_metadata(Code::from_i32(end["code"].as_i64().unwrap_or(2) as i32),
@@ -126,7 +136,7 @@ impl Handler {
         if sc["fail_before"].as_bool().unwrap_or(false) { return Err(script_status(&sc["end"])); }
         let mut items: Vec<Result<Vec<u8>, Status>> = sc["msgs"].as_array().cloned().unwrap_or_default().iter().map(|m| Ok(json_bytes(m))).collect();
         if !sc["end"]["ok"].as_bool().unwrap_or(true) { items.push(Err(script_status(&sc["end"]))); }
-        let mut r = Response::new(Box::pin(tokio_stream::iter(items)) as BoxStream);
+        let mut r = Response::new(Box::pin(StrictStream { items: items.into(), ended: false, complained: false }) as BoxStream);
         let (m, _) = build_meta(&sc["init_meta"]);
         *r.metadata_mut() = m;
         if sc["no_compress"].as_bool().unwrap_or(false) { r.disable_compression(); }
